@@ -12,7 +12,7 @@ BUILT = {
         note="trusted: TLC, LTensor.tla (Denote written from the statement), numpy.einsum for densifying updated networks, snapping tolerance 1e-8 (double) / 2e-4 (single); scope: <= 4 tensors, <= 6 labels of size <= 3, exponents -2..2",
         technique="TLA+ model of exponent bookkeeping model-checked with TLC; TLC trace validation with an exact Denote oracle over recorded quimb contraction routes"),
     "C02": dict(
-        text="TLC checks exhaustively (bounded depth) that the transcription of quimb's link/unlink/owner bookkeeping keeps all lookup maps equal to a fresh scan; TLC-simulated behaviours are replayed into real TensorNetwork objects (0 model drift) and seeded random walks over ~35 public operations are judged clause by clause by the trace spec.",
+        text="TLC checks exhaustively (bounded depth) that the transcription of quimb's link/unlink/owner bookkeeping keeps all lookup maps equal to a fresh scan; TLC-simulated behaviours are replayed into real TensorNetwork objects (0 model drift) and seeded random walks over ~35 public operations, histories of ~47 gauging/simplification/compression rewrites and of ~85 MPS/MPO/PEPS methods (with up to three live overlapping networks) are judged clause by clause by the trace spec.",
         note="trusted: TLC, C02_Defs fresh-scan definitions, the driver's projection of public attributes; assumes a tensor object is held at most once per network and callers keep label sizes consistent",
         technique="TLA+ implementation-shaped state machine model-checked with TLC; replay of TLC behaviours into quimb and TLC trace validation of random API walks"),
     "C04": dict(
@@ -20,9 +20,9 @@ BUILT = {
         note="trusted: TLC, LTensor.tla, numpy.einsum densification and numpy isometry measurements; hyper-index networks only for rewrites documenting support; scope <= 6 tensors, bond sizes <= 3",
         technique="TLA+ claim/gauge bookkeeping model model-checked with TLC; TLC trace validation with an exact Denote oracle over recorded rewrite sequences"),
     "C16": dict(
-        text="TLC explores every interleaving of the worker threads of a threaded kernel over the transcribed block arithmetic (every element written exactly once, nothing swallowed) and proves ExactCover of the transcription on a grid; the real partition functions on a large grid, every threaded kernel, par_reduce and parallel operator builders are judged against the serial answer by the TLC trace spec.",
+        text="TLC explores every interleaving of the worker threads of a threaded kernel over the transcribed block arithmetic (every element written exactly once, nothing swallowed) and proves ExactCover of the transcription on a grid; C16_Pool models the single shared executor with nested submission (NoHang, Returns under fairness); the real partition functions on a large grid, every threaded kernel, par_reduce, the public sparse-product dispatch, nested parallel Kronecker reductions for 1-8 workers (child processes: a crash or a hang is an observation) and the parallel operator builders are judged against the serial answer by the TLC trace spec.",
         note="trusted: TLC, numpy serial references; real thread schedules are sampled by repetition, all schedules are explored in the model only",
-        technique="TLA+ interleaving model + block-arithmetic transcription model-checked with TLC; TLC trace validation of recorded partition outputs and kernel results"),
+        technique="TLA+ interleaving model, block-arithmetic transcription and shared-pool model model-checked with TLC (liveness under fairness); TLC trace validation of recorded partition outputs and kernel results"),
 }
 
 NOT_BUILT = "check still under construction in this round (see DESIGN.md section 4 for the planned TLA+ specification)"
